@@ -260,7 +260,7 @@ func ecdsaProperty(t *testing.T, names []string, quick, thorough int) {
 	rec := ev.Get(ID)
 	rec.SetRule(rule)
 	g := genECDSA(names)
-	rec.Check(t, "ecdsa", ev.N(quick, thorough), func(rt *rapid.T) {
+	checkSerial(rec, t, "ecdsa", ev.N(quick, thorough), func(rt *rapid.T) {
 		c := g.Draw(rt, "case")
 		if sig := excludedECDSA(&c); sig != "" {
 			rec.Discarded("ecdsa:excluded shape of open finding " + sig)
